@@ -469,14 +469,15 @@ var quickDocs = []docSpec{
 	{Name: "zineTest.pdf"}, {Name: "Acroforms2.pdf"}, {Name: "Hybrid-PDF.pdf"}, {Name: "Walden.pdf"},
 	{Name: "zineTest.pdf", Mutate: "bad-startxref"}, {Name: "annotTest.pdf"},
 	{Name: "gen:40", Mutate: "bad-objoffset"}, {Name: "grid_example.pdf", Mutate: "bad-objoffset"},
+	{Name: "text_annotations.pdf", Mutate: "bad-objoffset"}, {Name: "Acroforms2.pdf", Mutate: "bad-startxref"}, // long repair scans
 }
 
 var thoroughDocs = []docSpec{
 	{Name: "bookletTestA6.pdf"}, {Name: "testWithText.pdf"}, {Name: "OptimizeTest.pdf"}, {Name: "T6.pdf"}, {Name: "xdp_2.0.pdf"},
 	{Name: "adobe_errata.pdf"}, {Name: "go.pdf"}, {Name: "testImage.pdf"}, {Name: "schmager_plateau10.pdf"}, {Name: "pike-stanford.pdf"},
-	{Name: "Acroforms2.pdf", Mutate: "bad-startxref"}, {Name: "Walden.pdf", Mutate: "bad-startxref"}, {Name: "5116.DCT_Filter.pdf"},
+	{Name: "Walden.pdf", Mutate: "bad-startxref"}, {Name: "5116.DCT_Filter.pdf"},
 	{Name: "adobeImplOfPDFSpec.pdf"}, {Name: "golang.pdf"},
-	{Name: "gen:40"}, {Name: "gen:120", Mutate: "bad-objoffset"}, {Name: "read.go.pdf", Mutate: "bad-objoffset"}, {Name: "text_annotations.pdf", Mutate: "bad-objoffset"},
+	{Name: "gen:40"}, {Name: "gen:120", Mutate: "bad-objoffset"}, {Name: "read.go.pdf", Mutate: "bad-objoffset"},
 }
 
 func (c10) Units(tier string, seed int64) ([]core.Unit, error) {
